@@ -9,6 +9,7 @@ import switches
 def check(rep, tier, replay=None):
     switches.run(rep, "C05")
     layers.run(rep, 2)
+    layers.run_ir(rep, tier, 2)
     rep.explanations.append(
         "Rule T (engine R, lib/rays.py): the tangent input is abstracted as a = t*a0 along rational rays; the optimized IR of the witness is "
         "interpreted in the domain of truncated power series in t over exact rationals, and the closed-form path must reproduce the "
